@@ -43,6 +43,9 @@ pub struct Deserializer<'xml> {
 
     /// number of open elements
     depth: usize,
+
+    /// start tag of the element whose content is being deserialized
+    last_start: Option<BytesStart<'xml>>,
 }
 
 /// XML deserialization result
@@ -106,6 +109,7 @@ impl<'xml> Deserializer<'xml> {
             peeked: None,
             next_slot: VecDeque::new(),
             depth: 0,
+            last_start: None,
         }
     }
 
@@ -197,6 +201,7 @@ impl<'xml> Deserializer<'xml> {
                     if x.name().as_ref() != name {
                         return Err(unexpected_tag_name());
                     }
+                    self.last_start = Some(x);
                     return Ok(());
                 }
                 DeEvent::End(_) => return Err(unexpected_end()),
@@ -251,6 +256,7 @@ impl<'xml> Deserializer<'xml> {
             match self.peek_event()? {
                 DeEvent::Start(start) => {
                     self.consume_peeked();
+                    self.last_start = Some(start.clone());
                     let name = start.name();
                     let ans = f(self, name.as_ref())?;
                     self.expect_end(name.as_ref())?;
@@ -275,6 +281,7 @@ impl<'xml> Deserializer<'xml> {
             match self.peek_event()? {
                 DeEvent::Start(start) => {
                     self.consume_peeked();
+                    self.last_start = Some(start.clone());
 
                     let name = start.name();
                     f(self, name.as_ref())?;
@@ -290,6 +297,20 @@ impl<'xml> Deserializer<'xml> {
                     return Ok(());
                 }
             }
+        }
+    }
+
+    /// Returns the value of an attribute of the element whose content is being deserialized.
+    /// Must be called before any child element is visited.
+    ///
+    /// # Errors
+    /// Returns an error if the attributes of the start tag are malformed.
+    pub fn attribute(&self, name: &str) -> DeResult<Option<String>> {
+        let Some(start) = self.last_start.as_ref() else { return Ok(None) };
+        let attr = start.try_get_attribute(name).map_err(|e| invalid_xml(e.into()))?;
+        match attr {
+            Some(attr) => Ok(Some(attr.unescape_value().map_err(invalid_xml)?.into_owned())),
+            None => Ok(None),
         }
     }
 
